@@ -80,19 +80,22 @@ def r1_r2(prog, rep):
                 rep.check("C09.R2", "%s: %s.connected returns to the awaiting state %s" % (name, lost.enter, row.src),
                           ok2, back.site, key="C09.R2:%s[%s]:wrong-target" % (name, lost.enter))
     m = prog.machine("Mailbox")
-    n_s2b = 0
-    for row in m.rows_into("S2B"):
-        if row.src == "S2B":
-            continue
-        n_s2b += 1
-        cs = row_calls(m, row)
-        good = any(c.endswith(".tx_open") for c in cs) and any(c.endswith(".tx_add") for c in cs)
-        rep.check("C09.R2", "Mailbox %s.%s -> S2B opens the mailbox and re-submits pending messages" % (row.src, row.inp),
-                  good, row.site, key="C09.R2:Mailbox[%s].%s:open+drain" % (row.src, row.inp),
-                  what="Mailbox %s.%s enters S2B with outputs %s: mailbox not (re)opened or un-echoed messages not re-sent"
-                  % (row.src, row.inp, row.outputs))
-    if n_s2b < 2:
-        raise AnalysisError("Mailbox S2B has fewer entering rows than expected (%d)" % n_s2b)
+    from ..tablerules import opened_states, reachable_avoiding_rows
+    opened = opened_states(m, ".tx_open")
+    n_open = 0
+    for st_ in sorted(opened):
+        for row in m.rows_into(st_):
+            if row.src == st_:
+                continue
+            n_open += 1
+            cs = row_calls(m, row)
+            good = any(c.endswith(".tx_open") for c in cs) and any(c.endswith(".tx_add") for c in cs)
+            rep.check("C09.R2", "Mailbox %s.%s -> %s opens the mailbox and re-submits pending messages" % (row.src, row.inp, st_),
+                      good, row.site, key="C09.R2:Mailbox[%s].%s:open+drain" % (row.src, row.inp),
+                      what="Mailbox %s.%s enters the opened state with outputs %s: mailbox not (re)opened or un-echoed messages not re-sent"
+                      % (row.src, row.inp, row.outputs))
+    if n_open < 2 or len(opened) != 1:
+        raise AnalysisError("Mailbox: expected one opened+connected state with several entering rows, found %s / %d rows" % (sorted(opened), n_open))
     # drain iterates the whole _pending_outbound
     drain = m.methods.get("_drain")
     if drain is None:
@@ -200,6 +203,7 @@ def r5(tree, rep):
 
 
 def r5_rows(prog, rep):
+    from ..tablerules import reachable_avoiding_rows
     m = prog.machine("Mailbox")
     for out, inp in (("dequeue", "rx_message_ours"), ("queue", "add_message")):
         rows = [r for r in m.rows.values() if out in r.outputs]
@@ -208,7 +212,7 @@ def r5_rows(prog, rep):
                   key="C09.R5:%s-rows" % out)
     # every add_message row of a live state (not closing/closed) queues
     for r in m.rows_on("add_message"):
-        live = r.src in ("S0A", "S0B", "S1A", "S2A", "S2B")
+        live = r.src in reachable_avoiding_rows(m, lambda x: x.inp == "close")
         if live:
             rep.check("C09.R5", "Mailbox[%s].add_message queues the message" % r.src, "queue" in r.outputs, r.site,
                       key="C09.R5:Mailbox[%s].add_message:queue" % r.src)
